@@ -268,7 +268,7 @@ func (o *objectRaiseStrategy) evaluate(m *MethodEvaluator) error {
 	}
 
 	m.parser.SetLastReturnT(methodT)
-	m.parser.SetLastEvaluatedT(methodT)
+	m.parser.SetLastEvaluatedT(methodT.DeepCopy())
 
 	return nil
 }
